@@ -9,7 +9,9 @@ over the eight path-significant components) components of the alphabet
 ``c22_sandbox.ALPHABET``, plus the SEPARATOR LAYER: every join of <= 3 (thorough: <= 4) of the
 path-significant components (and the absolute prefix spelled with backslashes) where each
 separator is "/" or "\\" and at least one is "\\" (Windows spelling: `..\\secret`, `sub\\..\\..\\x`,
-`\\abs\\path`), x  every loader configuration
+`\\abs\\path`), plus the LOOK-ALIKE LAYER: the same with Unicode compatibility characters that
+NFKC-normalise to path syntax (U+2025 '..', U+FF0E / U+FE52 '.', U+FF0F '/', U+FF3C '\\') used as
+components and as separators,  x  every loader configuration
 
   fs   FileSystemLoader         reject_symlinks {off,on} x search path {root | root,root2 | symlink->root} x ext {None,".liquid"}
   cfs  CachingFileSystemLoader  reject_symlinks {off,on} x search path {root | root,root2}                 x ext {None,".liquid"}
@@ -25,8 +27,8 @@ Oracle (one verdict per call):
   * a template / source whose text is the body of real file F:
       F really inside a search directory         -> allowed   (statement)
       reject_symlinks off (or PackageLoader, which has no such option), the requested name is
-      textually relative and below the search directory (reading a backslash both as a character
-      and as a separator), and F is what some path below the
+      textually relative and below the search directory (under every reading of the name:
+      as given, backslash as separator, NFKC-normalised, percent-decoded), and F is what some path below the
       search directory points to               -> allowed   (statement: links may be followed
                                                     unless rejection is enabled; loader docstring)
       otherwise                                  -> violation "read-outside"
@@ -95,6 +97,13 @@ def token_tuples(tier: str) -> Iterator[Name]:
         for toks in itertools.product(S.SEP_COMPONENTS, repeat=n):
             for seps in itertools.product(S.SEPARATORS, repeat=n - 1):
                 yield toks, "".join(seps)
+    # look-alike layer: compatibility characters that NFKC-normalise to "..", ".", "/" and "\\",
+    # as components and as separators
+    for n in range(1, full + 1):
+        comps = S.LOOKALIKE_COMPONENTS if n < full else S.LOOKALIKE_CORE
+        for toks in itertools.product(comps, repeat=n):
+            for seps in itertools.product(S.LOOKALIKE_SEPARATORS, repeat=n - 1):
+                yield toks, "".join(seps)
 
 
 _NAMES: dict[str, list[Name]] = {}
@@ -107,7 +116,7 @@ def all_names(tier: str) -> list[Name]:
         seen: set[str] = set()
         got = []
         for toks, seps in token_tuples(tier):
-            if seps is not None and "\\" not in seps:
+            if seps is not None and all(c == "/" for c in seps):
                 seps = None
             sym = S.join_sym(toks, seps)
             if sym in seen:
@@ -234,14 +243,14 @@ def judge(world: World, cfg: dict[str, Any], toks: list[str], api: str, phase: s
     return f"{fam}:{label}:{feature}", None
 
 
-def probe_nontrivial(world: World, cfg: dict[str, Any], name: str) -> Optional[str]:
+def probe_nontrivial(world: World, cfg: dict[str, Any], readings: list[str]) -> Optional[str]:
     """Does the name reach anything?  (OS view, independent of the library.)
 
     Non-trivial iff the name (with or without the default extension), joined to a search
-    directory by the OS rules (a backslash read as a character or as a separator), denotes an existing file-system entry -- inside or outside --
+    directory by the OS rules under some reading of it (c22_sandbox.readings: as given, backslash as
+    separator, NFKC-normalised, percent-decoded), denotes an existing file-system entry -- inside or outside --
     or probing it makes the OS fail (NUL byte, component longer than NAME_MAX).
     """
-    readings = [name] if "\\" not in name else [name, name.replace("\\", "/")]
     for b, e, rd in itertools.product(world.bases(cfg), ("", cfg["ext"] or ""), readings):
         try:
             os.lstat(os.path.join(b, rd + e))
@@ -296,6 +305,7 @@ def run_name(world: World, toks: tuple[str, ...], res: Optional[Result], seps: O
     name = world.sb.name(toks, seps)
     tl = list(toks)
     feature = S.name_feature(tl, seps)
+    rds = S.readings(name)
     done: list[tuple[dict[str, Any], str, str, tuple[Any, ...]]] = []
     pending: list[Any] = []
 
@@ -325,7 +335,7 @@ def run_name(world: World, toks: tuple[str, ...], res: Optional[Result], seps: O
     for cfg, api, phase, got in done:
         k = id(cfg)
         if k not in memo:
-            memo[k] = (probe_nontrivial(world, cfg, name), world.sb.expected_plain(tl, world.bases(cfg), cfg["ext"]) if seps is None else None)
+            memo[k] = (probe_nontrivial(world, cfg, rds), world.sb.expected_plain(tl, world.bases(cfg), cfg["ext"]) if seps is None else None)
         nt, expected = memo[k]
         label, v = judge(world, cfg, tl, api, phase, got, expected, seps)
         if v is not None:
@@ -377,6 +387,9 @@ class C22(Check):
             if tier == "quick" else "<= 4 over the full alphabet",
             "separator_layer": f"<= {3 if tier == 'quick' else 4} components of {S.SEP_COMPONENTS!r}, each separator "
                                "'/' or '\\\\', at least one '\\\\'",
+            "lookalike_layer": f"<= {2 if tier == 'quick' else 3} components of {S.LOOKALIKE_COMPONENTS!r} and exactly "
+                               f"{3 if tier == 'quick' else 4} of {S.LOOKALIKE_CORE!r}, each separator one of "
+                               f"{S.LOOKALIKE_SEPARATORS!r} (U+2025, U+FF0E, U+FE52, U+FF0F, U+FF3C: NFKC -> '..', '.', '/', '\\\\')",
             "distinct_names": len(all_names(tier)),
             "loader_configs": len(CONFIGS),
             "calls_per_name": sum(len(ph) for cfg in CONFIGS for _a, ph in ops(cfg)),
